@@ -407,6 +407,22 @@ def run_check(prop, tier, seed, owner=None, restrict=None):
                     break
         rpw.close()
         ck.cov['native_status_through_wrappers'] = runs
+    if prop == 'C05' and owner is None and not ck.violations:
+        # the interval is centred on the realtime reading of THIS call: realtime is a clock that is stepped, backwards too (chronyd
+        # makestep, an operator): two calls in one process, the second after a step back of 1000 s; then a step forward
+        rp_steps = common.Replay('debug')
+        seq = []
+        for real_s, what in ((1700000000, 'first call'), (1699999000, 'CLOCK_REALTIME stepped back by 1000 s since the previous call of the process'), (1700005000, 'stepped forward by 6000 s')):
+            out = rp_steps.ask('now 100 0 1100 0 5000 1000 1 %d 0 101 0' % real_s)
+            seq.append(out)
+            ck.cov['evaluations'] = ck.cov.get('evaluations', 0) + 1
+            want = 'ok %d 999994000 %d 6000 1' % (real_s - 1, real_s)
+            if not out.startswith(want):
+                ck.violation('interval-not-centred-on-this-calls-reading', '%s: record (as_of 100 s, bound 5000 ns, drift 1000 ppb, Synchronized), monotonic 101 s, CLOCK_REALTIME reads %d s: the real ClockErrorBound::now() returns %s, expected %s (centred on the reading of this call); calls so far in this process: %s'
+                             % (what, real_s, out[:80], want, ' | '.join(x[:60] for x in seq[:-1]) or 'none'), {'cmd': 'now (sequence in one process)', 'native': seq})
+                break
+        rp_steps.close()
+        ck.cov['native_realtime_steps'] = seq
     if prop == 'C05' and owner is None:
         # what the caller receives: both client libraries hand on exactly the interval now() computed (no reordering, clamping or swapping
         # of its two ends on the way out)
